@@ -1,6 +1,11 @@
 use std::cell::UnsafeCell;
 use std::ptr;
+#[cfg(not(may_verif))]
 use std::sync::atomic::{AtomicPtr, Ordering};
+#[cfg(may_verif)]
+use crate::verif::atomic::AtomicPtr;
+#[cfg(may_verif)]
+use std::sync::atomic::Ordering;
 
 use crossbeam_utils::{Backoff, CachePadded};
 
@@ -69,6 +74,8 @@ impl<T> Entry<T> {
     // remove the entry from it's list and return the contained value
     // it's only safe for the consumer that call pop()
     pub fn remove(mut self) -> Option<T> {
+        #[cfg(may_verif)]
+        let _vb = crate::verif::Bracket::new();
         unsafe {
             let node = self.0.as_mut();
 
@@ -166,11 +173,15 @@ impl<T> Queue<T> {
     /// if the new node is head, indicate a true
     /// this is used to update the BH if it's a new head
     pub fn push(&self, t: T) -> (Entry<T>, bool) {
+        #[cfg(may_verif)]
+        let _vb = crate::verif::Bracket::new();
         unsafe {
             let node = Node::new(Some(t));
             let prev = self.head.swap(node, Ordering::AcqRel);
             (*node).prev = prev;
             (*prev).next.store(node, Ordering::Release);
+            #[cfg(may_verif)]
+            crate::verif::point(crate::verif::Op::PlainRead, self.tail.get() as usize);
             let tail = *self.tail.get();
             let is_head = std::ptr::eq(tail, prev);
             (Entry(ptr::NonNull::new_unchecked(node)), is_head)
@@ -180,6 +191,8 @@ impl<T> Queue<T> {
     /// if the queue is empty
     #[inline]
     pub fn is_empty(&self) -> bool {
+        #[cfg(may_verif)]
+        let _vb = crate::verif::Bracket::new();
         let tail = unsafe { *self.tail.get() };
         // the list is empty
         std::ptr::eq(self.head.load(Ordering::Acquire), tail)
@@ -190,6 +203,8 @@ impl<T> Queue<T> {
     /// the if you pop the head, it's unsafe hold the head ref
     #[inline]
     pub unsafe fn peek(&self) -> Option<&T> {
+        #[cfg(may_verif)]
+        let _vb = crate::verif::Bracket::new();
         let tail = *self.tail.get();
         // the list is empty
         if std::ptr::eq(self.head.load(Ordering::Acquire), tail) {
@@ -203,6 +218,8 @@ impl<T> Queue<T> {
             if !next.is_null() {
                 break;
             }
+            #[cfg(may_verif)]
+            crate::verif::spin_hint();
             backoff.snooze();
         }
 
@@ -216,6 +233,8 @@ impl<T> Queue<T> {
     where
         F: Fn(&T) -> bool,
     {
+        #[cfg(may_verif)]
+        let _vb = crate::verif::Bracket::new();
         unsafe {
             let tail = *self.tail.get();
             // the list is empty
@@ -231,6 +250,8 @@ impl<T> Queue<T> {
                 if !next.is_null() {
                     break;
                 }
+                #[cfg(may_verif)]
+                crate::verif::spin_hint();
                 backoff.snooze();
             }
 
@@ -250,6 +271,8 @@ impl<T> Queue<T> {
             // clear the prev pointer indicate a new end point
             (*next).prev = ptr::null_mut();
             // move the tail to next
+            #[cfg(may_verif)]
+            crate::verif::point(crate::verif::Op::PlainWrite, self.tail.get() as usize);
             *self.tail.get() = next;
 
             // we take the next value, this is why use option to host the value
@@ -266,6 +289,8 @@ impl<T> Queue<T> {
 
     /// Pops some data from this queue.
     pub fn pop(&self) -> Option<T> {
+        #[cfg(may_verif)]
+        let _vb = crate::verif::Bracket::new();
         unsafe {
             let tail = *self.tail.get();
 
@@ -286,10 +311,14 @@ impl<T> Queue<T> {
                 if !next.is_null() {
                     break;
                 }
+                #[cfg(may_verif)]
+                crate::verif::spin_hint();
                 backoff.snooze();
             }
             (*next).prev = ptr::null_mut();
             // move the tail to next
+            #[cfg(may_verif)]
+            crate::verif::point(crate::verif::Op::PlainWrite, self.tail.get() as usize);
             *self.tail.get() = next;
 
             assert!((*tail).value.is_none());
